@@ -1,15 +1,767 @@
 /-
-Model of `BlockParser` (block_parser.py, list_parser.py, the block part of helpers.py and core.py's
-`BlockState`).  PLACEHOLDER: to be replaced by the transcription.
+Model of `BlockParser` (block_parser.py, list_parser.py, the block part of helpers.py and util.py, and core.py's
+`BlockState`), core configuration (no plugins, no directives).
+
+Conventions
+* one Lean function per Python function, same name in lowerCamelCase, Python name in the docstring;
+* the mutable `BlockState` is threaded explicitly; a handler returns `(end_pos, state)` where `end_pos : Option Nat`
+  is Python's `Optional[int]` (`if end_pos:` is `truthyPos`: `None` and `0` are falsy);
+* `env` is shared between a state and its children (same dict object in Python): a child starts with the parent's
+  `env` and the parent continues with the child's final `env`;
+* Python exceptions are `Except PyErr`;
+* loops recurse on an explicit fuel that bounds the number of iterations (every iteration of the Python loops
+  advances the cursor; where it does not, Python does not terminate and the model returns `.noProgress`);
+* the mutual recursion parse → handler → parse (children) / handler → handler (break rules, setext fall-back) goes
+  through `parseMethod`, which is structurally recursive on a nesting budget and hands the smaller instance to the
+  handlers as the argument `pm`.
 -/
 import Mistune.Model.Base
+import Mistune.Unicode
+import Mistune.CharrefTotal
 namespace Mistune
 namespace Model
+namespace Blk
+
+/-! ### small Python helpers -/
+
+/-- `if end_pos:` for an `Optional[int]` -/
+def truthyPos : Option Nat → Bool
+  | some (_ + 1) => true
+  | _ => false
+
+/-- `d[k]` -/
+def getE (j : Json) (k : String) : Except PyErr Json :=
+  match j.get? k with
+  | some v => .ok v
+  | none => .error .keyError
+
+/-- `tok["type"]` -/
+def typeOf (t : Json) : Except PyErr String := do
+  match ← getE t "type" with
+  | .str s => pure (String.ofList s)
+  | _ => pure ""
+
+/-- `tok["children"]` as a list -/
+def childrenOf (t : Json) : Except PyErr (List Json) := do
+  match ← getE t "children" with
+  | .arr l => pure l
+  | _ => throw .typeError
+
+/-- `l.insert(index, v)` for `0 ≤ index` (an index beyond the end appends) -/
+def listInsert (l : List Json) (index : Nat) (v : Json) : List Json := l.take index ++ v :: l.drop index
+
+/-! ### util.py -/
+
+/-- `mistune.util.expand_leading_tab(text, width)` -/
+def expandLeadingTab (cfg : MdCfg) (text : Str) (width : Nat) : Str :=
+  Py.reSub (cfg.rx "mistune.util._expand_tab_re")
+    (fun a mt =>
+      let s := (Py.groupStr a mt 1).getD []
+      s ++ Py.rep ' ' (width - s.length))
+    text
+
+/-- `mistune.util.expand_tab(text)` (`space` is always the default four blanks) -/
+def expandTab (cfg : MdCfg) (text : Str) : Str :=
+  Py.reSub (cfg.rx "mistune.util._expand_tab_re")
+    (fun a mt => (Py.groupStr a mt 1).getD [] ++ "    ".toList)
+    text
+
+/-- `mistune.util.strip_end(src)` -/
+def stripEnd (cfg : MdCfg) (src : Str) : Str :=
+  Py.reSub (cfg.rx "mistune.util._strip_end_re") (fun _ _ => ['\n']) src
+
+/-- `mistune.util.unescape(s)` -/
+def unescape (cfg : MdCfg) (s : Str) : Str := unescapeWith (cfg.rx "mistune.util._charref_re") s
+
+/-- `mistune.util.escape_url(link)` -/
+def escapeUrlM (cfg : MdCfg) (link : Str) : Str := escapeUrl (unescape cfg) link
+
+/-! ### helpers.py -/
+
+/-- `mistune.helpers.unescape_char(text)`: `_ESCAPE_CHAR_RE.sub(r"\1", text)` -/
+def unescapeChar (cfg : MdCfg) (text : Str) : Str :=
+  Py.reSub (cfg.rx "mistune.helpers._ESCAPE_CHAR_RE") (fun a mt => (Py.groupStr a mt 1).getD []) text
+
+/-- `mistune.helpers.parse_link_href(src, start_pos, block=True)`; `none` is `(None, None)` -/
+def parseLinkHref (cfg : MdCfg) (x : RxCtx) (startPos : Nat) : Except PyErr (Option (Str × Nat)) :=
+  match Py.matchAt (cfg.rx "mistune.helpers.LINK_BRACKET_START") x startPos with
+  | some m =>
+    let startPos := m.stop - 1
+    match Py.matchAt (cfg.rx "mistune.helpers.LINK_BRACKET_RE") x startPos with
+    | some m => .ok (some ((Py.groupStr x.s m 1).getD [], m.stop))
+    | none => .ok none
+  | none =>
+    match Py.matchAt (cfg.rx "mistune.helpers.LINK_HREF_BLOCK_RE") x startPos with
+    | none => .ok none
+    | some m =>
+      let endPos := m.stop
+      let href := (Py.groupStr x.s m 1).getD []
+      -- `src[end_pos - 1] == href[-1]`  (both index operations can raise IndexError)
+      match href.getLast? with
+      | none => .error .indexError
+      | some hl =>
+        -- a negative index `src[-1]` (end_pos = 0) would read the last character
+        let i := if endPos == 0 then x.s.size - 1 else endPos - 1
+        if h : i < x.s.size then
+          if x.s[i] == hl then .ok (some (href, endPos)) else .ok (some (href, endPos - 1))
+        else .error .indexError
+
+/-- `mistune.helpers.parse_link_title(src, start_pos, max_pos)`; `none` is `(None, None)` -/
+def parseLinkTitle (cfg : MdCfg) (x : RxCtx) (startPos maxPos : Nat) : Option (Str × Nat) :=
+  match Py.matchIn (cfg.rx "mistune.helpers.LINK_TITLE_RE") x startPos maxPos with
+  | some m =>
+    let g := (Py.groupStr x.s m 1).getD []
+    let title := (g.drop 1).dropLast          -- `[1:-1]`
+    some (unescapeChar cfg title, m.stop)
+  | none => none
+
+/-! ### core.py: `BlockState` -/
+
+structure BlockState where
+  src : Str
+  x : RxCtx                 -- `mkCtx src src.length`: the subject of every regex operation on `src`
+  tokens : List Json
+  cursor : Nat
+  cursorMax : Nat
+  depth : Nat               -- length of the `parent` chain (`BlockState.depth()`)
+  env : Json
+
+namespace BlockState
+
+/-- `BlockState.process(src)` -/
+def process (st : BlockState) (src : Str) : BlockState :=
+  { st with src := src, x := mkCtx src src.length, cursorMax := src.length }
+
+/-- `BlockState()` followed by `process(src)`: the root state -/
+def root (src : Str) : BlockState :=
+  process { src := [], x := mkCtx [] 0, tokens := [], cursor := 0, cursorMax := 0, depth := 0,
+            env := .obj [("ref_links", .obj [])] } src
+
+/-- `BlockState.child_state(src)`: the child shares the parent's `env` -/
+def childState (st : BlockState) (src : Str) : BlockState :=
+  process { src := [], x := mkCtx [] 0, tokens := [], cursor := 0, cursorMax := 0, depth := st.depth + 1,
+            env := st.env } src
+
+/-- `BlockState.find_line_end()`: `_LINE_END.search(self.src, self.cursor)`, `assert m is not None`, `m.end()` -/
+def findLineEnd (cfg : MdCfg) (st : BlockState) : Except PyErr Nat :=
+  match Py.search (cfg.rx "mistune.core._LINE_END") st.x st.cursor with
+  | some m => .ok m.stop
+  | none => .error .assertion
+
+/-- `BlockState.get_text(end_pos)` -/
+def getText (st : BlockState) (endPos : Nat) : Str := Py.slice st.x.s st.cursor endPos
+
+/-- `self.src[self.cursor:]` -/
+def restText (st : BlockState) : Str := Py.slice st.x.s st.cursor st.x.s.size
+
+/-- `BlockState.last_token()` -/
+def lastToken (st : BlockState) : Option Json := st.tokens.getLast?
+
+/-- assignment through the reference returned by `last_token()` -/
+def setLastToken (st : BlockState) (t : Json) : BlockState := { st with tokens := st.tokens.dropLast ++ [t] }
+
+/-- `BlockState.prepend_token(token)`: `self.tokens.insert(len(self.tokens) - 1, token)`; on an empty list the
+index `-1` is clamped to `0` -/
+def prependToken (st : BlockState) (token : Json) : BlockState :=
+  match st.tokens.getLast? with
+  | none => { st with tokens := [token] }
+  | some l => { st with tokens := st.tokens.dropLast ++ [token, l] }
+
+/-- `BlockState.append_token(token)` -/
+def appendToken (st : BlockState) (token : Json) : BlockState := { st with tokens := st.tokens ++ [token] }
+
+/-- the test `last_token and last_token["type"] == "paragraph"`: the last token when it holds -/
+def lastParagraph (st : BlockState) : Except PyErr (Option Json) :=
+  match st.lastToken with
+  | none => .ok none
+  | some last =>
+    if last.truthy then do
+      if (← typeOf last) == "paragraph" then pure (some last) else pure none
+    else .ok none
+
+/-- `last_token["text"] += text` -/
+def addText (last : Json) (text : Str) : Except PyErr Json := do
+  match ← getE last "text" with
+  | .str s => pure (last.set "text" (.str (s ++ text)))
+  | _ => throw .typeError
+
+/-- `BlockState.add_paragraph(text)` -/
+def addParagraph (st : BlockState) (text : Str) : Except PyErr BlockState := do
+  match ← st.lastParagraph with
+  | some last => pure (st.setLastToken (← addText last text))
+  | none => pure (st.appendToken (tok "paragraph" [("text", .str text)]))
+
+/-- `BlockState.append_paragraph()` -/
+def appendParagraph (cfg : MdCfg) (st : BlockState) : Except PyErr (Option Nat × BlockState) := do
+  match ← st.lastParagraph with
+  | some last =>
+    let pos ← st.findLineEnd cfg
+    let last ← addText last (st.getText pos)
+    pure (some pos, st.setLastToken last)
+  | none => pure (none, st)
+
+end BlockState
+
+/-- result of a parse method: `(end_pos, state)` -/
+abbrev PMRes := Except PyErr (Option Nat × BlockState)
+
+/-- `Parser.parse_method(m, state)` seen from a handler: rule name (`m.lastgroup`), the match, the state -/
+abbrev ParseMethod := String → RxMatch → BlockState → PMRes
+
+/-- `m.group(name)` on a match over `state.src` -/
+def grp (cfg : MdCfg) (st : BlockState) (mt : RxMatch) (name : String) : Str := groupNamed cfg st.x.s mt name
+
+/-- `m.group(0)` -/
+def grp0 (st : BlockState) (mt : RxMatch) : Str := Py.slice st.x.s mt.start mt.stop
+
+/-- `Parser.compile_sc(rules)`: `self.specification[k]` raises KeyError for an unknown rule -/
+def compileSc (cfg : MdCfg) (rules : List String) : Except PyErr (List (String × Rx)) :=
+  rules.mapM (fun n =>
+    match cfg.blockSpec.lookup n with
+    | some r => .ok (n, r)
+    | none => .error .keyError)
+
+/-- `sc.match(s, pos)` for a combined scanner (`pos` clamped like CPython does) -/
+def scMatch (x : RxCtx) (sc : List (String × Rx)) (pos : Nat) : Option (String × RxMatch) :=
+  scanAt x sc (min pos x.n)
+
+/-! ### run-time regexes -/
+
+/-- `re.compile(r"^ {0,3}" + c + "{" + str(n) + r",}[ \t]*(?:\n|$)", re.M)` of `parse_fenced_code`
+(same shape as the generated instances `rt:fence_end[…]`) -/
+def fenceEndRx (c : Char) (n : Nat) : Rx :=
+  .seq .bol (.seq (.rep (.cls false [.chr 32]) 0 (some 3) true) (.seq (.rep (.cls false [.chr c.toNat]) n none true)
+    (.seq (.rep (.cls false [.chr 32, .chr 9]) 0 none true) (.alt (.cls false [.chr 10]) .eol))))
+
+/-- `re.compile("^ {0," + str(k) + "}", re.M)` of `parse_fenced_code` (same shape as `rt:trim[…]`) -/
+def trimRx (k : Nat) : Rx := .seq .bol (.rep (.cls false [.chr 32]) 0 (some k) true)
+
+/-! ### block_parser.py: the handlers that do not recurse -/
+
+/-- `BlockParser.parse_blank_line` -/
+def parseBlankLine (mt : RxMatch) (st : BlockState) : PMRes :=
+  .ok (some mt.stop, st.appendToken (tok "blank_line" []))
+
+/-- `BlockParser.parse_thematic_break` -/
+def parseThematicBreak (mt : RxMatch) (st : BlockState) : PMRes :=
+  .ok (some (mt.stop + 1), st.appendToken (tok "thematic_break" []))
+
+/-- `BlockParser.parse_indent_code` -/
+def parseIndentCode (cfg : MdCfg) (mt : RxMatch) (st : BlockState) : PMRes := do
+  let (endPos, st) ← st.appendParagraph cfg
+  if truthyPos endPos then return (endPos, st)
+  let code := grp0 st mt
+  let code := expandLeadingTab cfg code 4
+  let code := Py.reSub (cfg.rx "mistune.block_parser._INDENT_CODE_TRIM") (fun _ _ => []) code
+  let code := Py.stripC ['\n'] code
+  return (some mt.stop, st.appendToken (tok "block_code" [("raw", .str code), ("style", Json.s "indent")]))
+
+/-- `BlockParser.parse_fenced_code` -/
+def parseFencedCode (cfg : MdCfg) (mt : RxMatch) (st : BlockState) : PMRes := do
+  let spaces := grp cfg st mt "fenced_1"
+  let marker := grp cfg st mt "fenced_2"
+  let info := grp cfg st mt "fenced_3"
+  let c ← match marker with
+    | c :: _ => pure c
+    | [] => throw PyErr.indexError                        -- `marker[0]`
+  if !info.isEmpty && c == '`' && info.contains c then    -- `info.find(c) != -1`
+    return (none, st)
+  let endRx := fenceEndRx c marker.length
+  let cursorStart := mt.stop + 1
+  let (code, endPos) := match Py.search endRx st.x cursorStart with
+    | some m2 => (Py.slice st.x.s cursorStart m2.start, m2.stop)
+    | none => (Py.slice st.x.s cursorStart st.x.s.size, st.cursorMax)
+  let code := if !spaces.isEmpty && !code.isEmpty then Py.reSub (trimRx spaces.length) (fun _ _ => []) code else code
+  let token := tok "block_code" [("raw", .str code), ("style", Json.s "fenced"), ("marker", .str marker)]
+  let token := if !info.isEmpty then
+      let info := unescapeChar cfg info
+      token.set "attrs" (.obj [("info", .str (Py.strip info))])
+    else token
+  return (some endPos, st.appendToken token)
+
+/-- `BlockParser.parse_atx_heading` -/
+def parseAtxHeading (cfg : MdCfg) (mt : RxMatch) (st : BlockState) : PMRes :=
+  let level := (grp cfg st mt "atx_1").length
+  let text := Py.strip (grp cfg st mt "atx_2")
+  let text := if !text.isEmpty then Py.reSub (cfg.rx "mistune.block_parser._ATX_HEADING_TRIM") (fun _ _ => []) text else text
+  let token := tok "heading" [("text", .str text), ("attrs", .obj [("level", .num level)]), ("style", Json.s "atx")]
+  .ok (some (mt.stop + 1), st.appendToken token)
+
+/-- `BlockParser.parse_setex_heading` -/
+def parseSetexHeading (cfg : MdCfg) (pm : ParseMethod) (mt : RxMatch) (st : BlockState) : PMRes := do
+  match ← st.lastParagraph with
+  | some last =>
+    let level : Int := if grp cfg st mt "setext_1" == ['='] then 1 else 2
+    let last := ((last.set "type" (Json.s "heading")).set "style" (Json.s "setext")).set "attrs" (.obj [("level", .num level)])
+    return (some (mt.stop + 1), st.setLastToken last)
+  | none =>
+    let sc ← compileSc cfg ["thematic_break", "list"]
+    match scMatch st.x sc st.cursor with
+    | some (name, m2) =>
+      if name == "list" && st.depth ≥ cfg.maxNested then
+        -- no list beyond the nesting limit (the list rule itself is removed there)
+        return (none, st)
+      pm name m2 st
+    | none => return (none, st)
+
+/-- `BlockParser.parse_ref_link` -/
+def parseRefLink (cfg : MdCfg) (mt : RxMatch) (st : BlockState) : PMRes := do
+  let (endPos, st) ← st.appendParagraph cfg
+  if truthyPos endPos then return (endPos, st)
+  let label := grp cfg st mt "reflink_1"
+  let key := unikeyPy label
+  if key.isEmpty then return (none, st)
+  match ← parseLinkHref cfg st.x mt.stop with
+  | none => return (none, st)
+  | some (href0, hrefPos0) =>
+    let maxPos := match Py.search (cfg.rx "mistune.block_parser.BlockParser.BLANK_LINE") st.x hrefPos0 with
+      | some b => b.start
+      | none => st.cursorMax
+    -- `title, title_pos = parse_link_title(...)`
+    let (title, titlePos) : Option Str × Option Nat := match parseLinkTitle cfg st.x hrefPos0 maxPos with
+      | some (t, p) => (some t, some p)
+      | none => (none, none)
+    let (title, titlePos) : Option Str × Option Nat :=
+      if truthyPos titlePos then
+        match Py.matchAt (cfg.rx "mistune.block_parser._BLANK_TO_LINE") st.x (titlePos.getD 0) with
+        | some m2 => (title, some m2.stop)
+        | none => (none, none)
+      else (title, titlePos)
+    let (href, hrefPos) : Option Str × Option Nat :=
+      if titlePos.isNone then
+        match Py.matchAt (cfg.rx "mistune.block_parser._BLANK_TO_LINE") st.x hrefPos0 with
+        | some m3 => (some href0, some m3.stop)
+        | none => (none, none)
+      else (some href0, some hrefPos0)
+    let endPos := if truthyPos titlePos then titlePos else hrefPos      -- `title_pos or href_pos`
+    if !truthyPos endPos then return (none, st)
+    let refs ← getE st.env "ref_links"
+    let k := String.ofList key
+    if !refs.has k then
+      match href with
+      | none => throw PyErr.assertion
+      | some href =>
+        let href := unescapeChar cfg href
+        let data := Json.obj [("url", .str (escapeUrlM cfg href)), ("label", .str label)]
+        let data := match title with
+          | some t => if !t.isEmpty then data.set "title" (.str t) else data
+          | none => data
+        return (endPos, { st with env := st.env.set "ref_links" (refs.set k data) })
+    return (endPos, st)
+
+/-- `_parse_html_to_end(state, end_marker, start_pos)` -/
+def parseHtmlToEnd (cfg : MdCfg) (st : BlockState) (endMarker : Str) (startPos : Nat) : PMRes := do
+  match Py.findFrom st.src endMarker startPos with
+  | none =>
+    let text := st.restText
+    return (some st.cursorMax, st.appendToken (tok "block_html" [("raw", .str text)]))
+  | some markerPos =>
+    let text := st.getText markerPos
+    let st := { st with cursor := markerPos }
+    let endPos ← st.findLineEnd cfg
+    let text := text ++ st.getText endPos
+    return (some endPos, st.appendToken (tok "block_html" [("raw", .str text)]))
+
+/-- `_parse_html_to_newline(state, newline)` -/
+def parseHtmlToNewline (st : BlockState) (newline : Rx) : PMRes :=
+  match Py.search newline st.x st.cursor with
+  | some m =>
+    let endPos := m.start
+    .ok (some endPos, st.appendToken (tok "block_html" [("raw", .str (st.getText endPos))]))
+  | none =>
+    .ok (some st.cursorMax, st.appendToken (tok "block_html" [("raw", .str st.restText)]))
+
+/-- `BlockParser.parse_raw_html` (and `parse_block_html`, which delegates to it) -/
+def parseRawHtml (cfg : MdCfg) (mt : RxMatch) (st : BlockState) : PMRes := do
+  let blankLine := cfg.rx "mistune.block_parser.BlockParser.BLANK_LINE"
+  let marker := Py.strip (grp0 st mt)
+  -- rule 2
+  if marker == "<!--".toList then return (← parseHtmlToEnd cfg st "-->".toList mt.stop)
+  -- rule 3
+  if marker == "<?".toList then return (← parseHtmlToEnd cfg st "?>".toList mt.stop)
+  -- rule 5
+  if marker == "<![CDATA[".toList then return (← parseHtmlToEnd cfg st "]]>".toList mt.stop)
+  -- rule 4
+  if Py.startsWith marker "<!".toList then return (← parseHtmlToEnd cfg st ">".toList mt.stop)
+  let closeTag : Option Str := if Py.startsWith marker "</".toList then some (Py.lowerAscii (marker.drop 2)) else none
+  let openTag : Option Str := if Py.startsWith marker "</".toList then none else some (Py.lowerAscii (marker.drop 1))
+  match closeTag, openTag with
+  | some ct, _ =>
+    -- rule 6
+    if cfg.blockTags.contains (String.ofList ct) then return (← parseHtmlToNewline st blankLine)
+  | none, some ot =>
+    -- rule 1
+    if cfg.preTags.contains (String.ofList ot) then
+      return (← parseHtmlToEnd cfg st ("</".toList ++ ot ++ ">".toList) mt.stop)
+    -- rule 6
+    if cfg.blockTags.contains (String.ofList ot) then return (← parseHtmlToNewline st blankLine)
+  | none, none => pure ()
+  -- Blocks of type 7 may not interrupt a paragraph.
+  let (endPos, st) ← st.appendParagraph cfg
+  if truthyPos endPos then return (endPos, st)
+  -- rule 7
+  let startPos := mt.stop
+  let endPos ← st.findLineEnd cfg
+  let isTruthy (o : Option Str) : Bool := match o with | some s => !s.isEmpty | none => false
+  if (isTruthy openTag && (Py.matchIn (cfg.rx "mistune.block_parser._OPEN_TAG_END") st.x startPos endPos).isSome) ||
+     (isTruthy closeTag && (Py.matchIn (cfg.rx "mistune.block_parser._CLOSE_TAG_END") st.x startPos endPos).isSome) then
+    return (← parseHtmlToNewline st blankLine)
+  return (none, st)
+
+/-! ### `BlockParser.parse` -/
+
+/-- the `while state.cursor < state.cursor_max` loop of `BlockParser.parse` -/
+def parseLoop (cfg : MdCfg) (pm : ParseMethod) (sc : List (String × Rx)) : Nat → BlockState → Except PyErr BlockState
+  | 0, st => if st.cursor < st.cursorMax then .error .noProgress else .ok st
+  | fuel + 1, st =>
+    if st.cursor < st.cursorMax then
+      match scan st.x sc st.cursor with
+      | none => .ok st                                  -- `break`
+      | some (name, m) => do
+        let endPos := m.start
+        let st ← if endPos > st.cursor then do
+            let st ← st.addParagraph (st.getText endPos)
+            pure { st with cursor := endPos }
+          else pure st
+        let (endPos2, st) ← pm name m st
+        let st ← if truthyPos endPos2 then pure { st with cursor := endPos2.getD 0 }
+          else do
+            let endPos3 ← st.findLineEnd cfg
+            let st ← st.addParagraph (st.getText endPos3)
+            pure { st with cursor := endPos3 }
+        parseLoop cfg pm sc fuel st
+    else .ok st
+
+/-- `BlockParser.parse(state, rules)`; `rules = none` is `None` (`self.rules`) -/
+def parse (cfg : MdCfg) (pm : ParseMethod) (st : BlockState) (rules : Option (List String)) : Except PyErr BlockState := do
+  let sc ← compileSc cfg (rules.getD cfg.blockRules)
+  let st ← parseLoop cfg pm sc (st.cursorMax + 1) st
+  if st.cursor < st.cursorMax then
+    let st ← st.addParagraph st.restText
+    pure { st with cursor := st.cursorMax }
+  else pure st
+
+/-! ### block quotes -/
+
+/-- the three substitutions applied to a matched run of quoted lines:
+`_BLOCK_QUOTE_LEADING.sub("")`, `expand_leading_tab(…, 3)`, `_BLOCK_QUOTE_TRIM.sub("")` -/
+def cleanQuote (cfg : MdCfg) (quote : Str) : Str :=
+  let quote := Py.reSub (cfg.rx "mistune.block_parser._BLOCK_QUOTE_LEADING") (fun _ _ => []) quote
+  let quote := expandLeadingTab cfg quote 3
+  Py.reSub (cfg.rx "mistune.block_parser._BLOCK_QUOTE_TRIM") (fun _ _ => []) quote
+
+/-- the `while state.cursor < state.cursor_max` loop of `extract_block_quote` (the `require_marker = False` branch);
+returns `(text, end_pos, state)` -/
+def extractQuoteLoop (cfg : MdCfg) (pm : ParseMethod) (breakSc : List (String × Rx)) :
+    Nat → Str → Bool → Option Nat → BlockState → Except PyErr (Str × Option Nat × BlockState)
+  | 0, text, _, endPos, st => if st.cursor < st.cursorMax then .error .noProgress else .ok (text, endPos, st)
+  | fuel + 1, text, prevBlankLine, endPos, st =>
+    if st.cursor < st.cursorMax then
+      match Py.matchAt (cfg.rx "mistune.block_parser._STRICT_BLOCK_QUOTE") st.x st.cursor with
+      | some m3 =>
+        let quote := cleanQuote cfg (grp0 st m3)
+        let text := text ++ quote
+        let st := { st with cursor := m3.stop }
+        let prevBlankLine :=
+          if (Py.strip quote).isEmpty then true
+          else ((cfg.rx "mistune.block_parser._LINE_BLANK_END").search (Py.ctxOf quote) 0).isSome
+        extractQuoteLoop cfg pm breakSc fuel text prevBlankLine endPos st
+      | none =>
+        if prevBlankLine then
+          -- CommonMark Example 249: a blank line is needed between a block quote and a following paragraph
+          .ok (text, endPos, st)
+        else do
+          let (endPos, st) ← match scMatch st.x breakSc st.cursor with
+            | some (name, m4) => pm name m4 st
+            | none => pure (endPos, st)
+          if truthyPos endPos then return (text, endPos, st)
+          -- lazy continuation line
+          let pos ← st.findLineEnd cfg
+          let line := expandLeadingTab cfg (st.getText pos) 3
+          extractQuoteLoop cfg pm breakSc fuel (text ++ line) prevBlankLine endPos { st with cursor := pos }
+    else .ok (text, endPos, st)
+
+/-- `BlockParser.extract_block_quote`: `(text, end_pos, state)` -/
+def extractBlockQuote (cfg : MdCfg) (pm : ParseMethod) (mt : RxMatch) (st : BlockState) :
+    Except PyErr (Str × Option Nat × BlockState) := do
+  -- cleanup at first to detect if it is code block
+  let text := grp cfg st mt "quote_1" ++ ['\n']
+  let text := expandLeadingTab cfg text 3
+  let text := Py.reSub (cfg.rx "mistune.block_parser._BLOCK_QUOTE_TRIM") (fun _ _ => []) text
+  let sc ← compileSc cfg ["blank_line", "indent_code", "fenced_code"]
+  let requireMarker := (scMatch (Py.ctxOf text) sc 0).isSome
+  let st := { st with cursor := mt.stop + 1 }
+  if requireMarker then
+    match Py.matchAt (cfg.rx "mistune.block_parser._STRICT_BLOCK_QUOTE") st.x st.cursor with
+    | some m2 =>
+      let quote := cleanQuote cfg (grp0 st m2)
+      return (expandTab cfg (text ++ quote), none, { st with cursor := m2.stop })
+    | none => return (expandTab cfg text, none, st)
+  else
+    let breakSc ← compileSc cfg ["blank_line", "thematic_break", "fenced_code", "list", "block_html"]
+    let (text, endPos, st) ← extractQuoteLoop cfg pm breakSc (st.cursorMax + 1) text false none st
+    -- according to CommonMark Example 6, the second tab should be treated as 4 spaces
+    return (expandTab cfg text, endPos, st)
+
+/-- `[r for r in rules if r not in ("block_quote", "list")]` -/
+def withoutContainers (rules : List String) : List String :=
+  rules.filter (fun r => r != "block_quote" && r != "list")
+
+/-- `BlockParser.parse_block_quote` -/
+def parseBlockQuote (cfg : MdCfg) (pm : ParseMethod) (mt : RxMatch) (st : BlockState) : PMRes := do
+  let (text, endPos, st) ← extractBlockQuote cfg pm mt st
+  -- scan children state
+  let child := st.childState text
+  let rules :=
+    if st.depth + 1 ≥ cfg.maxNested then            -- `state.depth() >= self.max_nested_level - 1`
+      -- at the nesting limit no container may open another container
+      withoutContainers cfg.quoteRules
+    else cfg.quoteRules
+  let child ← parse cfg pm child (some rules)
+  let st := { st with env := child.env }
+  let token := tok "block_quote" [("children", .arr child.tokens)]
+  if truthyPos endPos then
+    return (endPos, st.prependToken token)
+  return (some st.cursor, st.appendToken token)
+
+/-! ### list_parser.py -/
+
+/-- `_get_list_bullet(c)`, as the bullet character that indexes the generated family `rt:list_item[<c><w>]` -/
+def getListBullet (c : Char) : Char :=
+  if c == '.' then '.' else if c == ')' then ')' else if c == '*' then '*' else if c == '+' then '+' else '-'
+
+/-- the scanner that `_parse_list_item` compiles: the list-item break rules with their first `3` replaced by the
+leading width when it is `< 3` (generated family `rt:listbreak[<rule>,<w>]`), and `list_item`
+(`_compile_list_item_pattern(bullet, leading_width)`, generated family `rt:list_item[<bullet><w>]`) inserted at
+index 1; every alternative is prefixed by `(?<=\n)` -/
+def listItemSc (cfg : MdCfg) (bullet : Char) (leadingWidth : Nat) : List (String × Rx) :=
+  let w := min leadingWidth 3
+  let br (n : String) : String × Rx := (n, cfg.rx ("rt:listbreak[" ++ n ++ "," ++ toString w ++ "]"))
+  [br "thematic_break",
+   ("list_item", cfg.rx ("rt:list_item[" ++ String.singleton bullet ++ toString w ++ "]")),
+   br "fenced_code", br "atx_heading", br "block_quote", br "block_html", br "list"]
+
+/-- `_compile_continue_width(text, leading_width)` -/
+def compileContinueWidth (cfg : MdCfg) (text : Str) (leadingWidth : Nat) : Str × Nat :=
+  let text := expandLeadingTab cfg text 3
+  let text := expandTab cfg text
+  match (cfg.rx "mistune.list_parser._LINE_HAS_TEXT").matchAt (Py.ctxOf text) 0 with
+  | some m2 =>
+    -- indent code, startswith 5 spaces
+    let spaceWidth :=
+      if Py.startsWith text "     ".toList then 1
+      else match m2.group 1 with
+        | some (a, b) => b - a
+        | none => 0
+    (text.drop spaceWidth ++ ['\n'], leadingWidth + spaceWidth)
+  | none => ([], leadingWidth + 1)
+
+/-- `_clean_list_item_text(src, continue_width)` -/
+def cleanListItemText (cfg : MdCfg) (src : Str) (continueWidth : Nat) : Str :=
+  -- according to Example 7, tab should be treated as 3 spaces
+  let trimSpace := Py.rep ' ' continueWidth
+  let lines := Py.splitOn ['\n'] src
+  let rv := lines.map (fun line =>
+    if Py.startsWith line trimSpace then
+      -- according to CommonMark Example 5 tab should be treated as 4 spaces
+      expandTab cfg (Py.replaceFirst trimSpace [] line)
+    else line)
+  Py.join ['\n'] rv
+
+/-- `_is_loose_list(tokens)` -/
+def isLooseList : List Json → Nat → Except PyErr Bool
+  | [], _ => .ok false
+  | t :: rest, paragraphCount => do
+    let ty ← typeOf t
+    if ty == "blank_line" then return true
+    if ty == "paragraph" then
+      if paragraphCount + 1 > 1 then return true
+      isLooseList rest (paragraphCount + 1)
+    else isLooseList rest paragraphCount
+
+/-- `_transform_tight_list(token)`; the fuel bounds the nesting of lists -/
+def transformTightList : Nat → Json → Except PyErr Json
+  | 0, _ => .error .depthExceeded
+  | fuel + 1, token => do
+    if (← getE token "tight").truthy then
+      -- reset tight list item
+      let items ← childrenOf token
+      let items ← items.mapM (fun listItem => do
+        let cs ← childrenOf listItem
+        let cs ← cs.mapM (fun t => do
+          let ty ← typeOf t
+          if ty == "paragraph" then pure (t.set "type" (Json.s "block_text"))
+          else if ty == "list" then transformTightList fuel t
+          else pure t)
+        pure (listItem.set "children" (.arr cs)))
+      pure (token.set "children" (.arr items))
+    else pure token
+
+/-- the groups `(spaces, marker, text)` of a list-item start -/
+abbrev ItemGroups := Str × Str × Str
+
+/-- the `while pos < state.cursor_max` loop of `_parse_list_item`; returns `(src, next_group, token, state)` -/
+def listItemLoop (cfg : MdCfg) (pm : ParseMethod) (sc : List (String × Rx)) (text continueSpace : Str) :
+    Nat → Nat → Str → Bool → Json → BlockState → Except PyErr (Str × Option ItemGroups × Json × BlockState)
+  | 0, pos, src, _, token, st => if pos < st.cursorMax then .error .noProgress else .ok (src, none, token, st)
+  | fuel + 1, pos, src, prevBlankLine, token, st =>
+    if pos < st.cursorMax then do
+      let pos ← st.findLineEnd cfg
+      let line := st.getText pos
+      if ((cfg.rx "mistune.block_parser.BlockParser.BLANK_LINE").matchAt (Py.ctxOf line) 0).isSome then
+        listItemLoop cfg pm sc text continueSpace fuel pos (src ++ ['\n']) true token { st with cursor := pos }
+      else
+        let line := expandLeadingTab cfg line 4
+        if Py.startsWith line continueSpace then
+          if prevBlankLine && text.isEmpty && (Py.strip src).isEmpty then
+            -- Example 280: a list item can begin with at most one blank line
+            return (src, none, token, st)
+          listItemLoop cfg pm sc text continueSpace fuel pos (src ++ line) false token { st with cursor := pos }
+        else
+          -- `m = sc.match(state.src, state.cursor)`
+          let (stop, st) ← match scMatch st.x sc st.cursor with
+            | some (tokType, m) =>
+              if tokType == "list_item" then
+                let token := if prevBlankLine then token.set "tight" (.bool false) else token
+                let nextGroup : ItemGroups :=
+                  (grp cfg st m "listitem_1", grp cfg st m "listitem_2", grp cfg st m "listitem_3")
+                pure (some (some nextGroup, token), { st with cursor := m.stop + 1 })
+              else if tokType == "list" then pure (some (none, token), st)
+              else do
+                let tokIndex := st.tokens.length
+                let (endPos, st) ← pm tokType m st
+                if truthyPos endPos then
+                  let token := (token.set "_tok_index" (.num tokIndex)).set "_end_pos" (.num (endPos.getD 0))
+                  pure (some (none, token), st)
+                else pure (none, st)
+            | none => pure (none, st)
+          match stop with
+          | some (nextGroup, token) => return (src, nextGroup, token, st)
+          | none =>
+            if prevBlankLine && !Py.startsWith line continueSpace then
+              -- not a continue line, and previous line is blank
+              return (src, none, token, st)
+            listItemLoop cfg pm sc text continueSpace fuel pos (src ++ line) prevBlankLine token { st with cursor := pos }
+    else .ok (src, none, token, st)
+
+/-- `_parse_list_item(block, bullet, groups, token, state, rules)`; returns `(next_group, token, state)` -/
+def parseListItem (cfg : MdCfg) (pm : ParseMethod) (bullet : Char) (groups : ItemGroups) (token : Json)
+    (st : BlockState) (rules : List String) : Except PyErr (Option ItemGroups × Json × BlockState) := do
+  let (spaces, marker, text) := groups
+  let leadingWidth := spaces.length + marker.length
+  let (text, continueWidth) := compileContinueWidth cfg text leadingWidth
+  let sc := listItemSc cfg bullet leadingWidth
+  let continueSpace := Py.rep ' ' continueWidth
+  let (src, nextGroup, token, st) ←
+    listItemLoop cfg pm sc text continueSpace (st.cursorMax + 1) st.cursor [] false token st
+  let text := text ++ cleanListItemText cfg src continueWidth
+  let child := st.childState (stripEnd cfg text)
+  let child ← parse cfg pm child (some rules)
+  let st := { st with env := child.env }
+  let token ← do
+    if (← getE token "tight").truthy && (← isLooseList child.tokens 0) then pure (token.set "tight" (.bool false))
+    else pure token
+  let children ← childrenOf token
+  let token := token.set "children" (.arr (children ++ [tok "list_item" [("children", .arr child.tokens)]]))
+  return (nextGroup, token, st)
+
+/-- the `while groups:` loop of `parse_list` -/
+def listItemsLoop (cfg : MdCfg) (pm : ParseMethod) (bullet : Char) (rules : List String) :
+    Nat → Option ItemGroups → Json → BlockState → Except PyErr (Json × BlockState)
+  | _, none, token, st => .ok (token, st)
+  | 0, some _, _, _ => .error .noProgress
+  | fuel + 1, some groups, token, st => do
+    let (groups, token, st) ← parseListItem cfg pm bullet groups token st rules
+    listItemsLoop cfg pm bullet rules fuel groups token st
+
+/-- `list_parser.parse_list(block, m, state)` (= `BlockParser.parse_list`) -/
+def parseList (cfg : MdCfg) (pm : ParseMethod) (mt : RxMatch) (st : BlockState) : PMRes := do
+  let text := grp cfg st mt "list_3"
+  -- Example 285: an empty list item cannot interrupt a paragraph
+  let (early, st) ← if (Py.strip text).isEmpty then st.appendParagraph cfg else pure (none, st)
+  if truthyPos early then return (early, st)
+  let marker := grp cfg st mt "list_2"
+  let ordered := marker.length > 1
+  let depth := st.depth
+  let last ← match marker.getLast? with
+    | some c => pure c
+    | none => throw PyErr.indexError                       -- `marker[-1]`
+  let attrs := Json.obj [("depth", .num depth), ("ordered", .bool ordered)]
+  -- `if ordered: start = int(marker[:-1]); if start != 1: …`
+  let (early, attrs, st) ← if ordered then do
+      let start ← match Py.intOfStr marker.dropLast with
+        | some n => pure n
+        | none => throw PyErr.valueError
+      if start != 1 then
+        -- Example 304: we allow only lists starting with 1 to interrupt paragraphs
+        let (endPos, st) ← st.appendParagraph cfg
+        if truthyPos endPos then pure (endPos, attrs, st)
+        else pure (none, attrs.set "start" (.num start), st)
+      else pure (none, attrs, st)
+    else pure (none, attrs, st)
+  if truthyPos early then return (early, st)
+  let token := tok "list" [("children", .arr []), ("tight", .bool true), ("bullet", .str [last]), ("attrs", attrs)]
+  let st := { st with cursor := mt.stop + 1 }
+  let groups : ItemGroups := (grp cfg st mt "list_1", marker, text)
+  let rules :=
+    if depth + 1 ≥ cfg.maxNested then              -- `depth >= block.max_nested_level - 1`
+      -- at the nesting limit no container may open another container
+      withoutContainers cfg.listRules
+    else cfg.listRules
+  let bullet := getListBullet last
+  let (token, st) ← listItemsLoop cfg pm bullet rules (st.cursorMax + 2) (some groups) token st
+  -- `end_pos = token.pop("_end_pos", None)`
+  let endPos : Option Nat := match token.get? "_end_pos" with
+    | some (.num n) => some n.toNat
+    | _ => none
+  let token := token.erase "_end_pos"
+  let token ← transformTightList (cfg.maxNested + 3) token
+  if truthyPos endPos then
+    -- `index = token.pop("_tok_index")`
+    let index ← match ← getE token "_tok_index" with
+      | .num n => pure n.toNat
+      | _ => throw PyErr.typeError
+    let token := token.erase "_tok_index"
+    return (endPos, { st with tokens := listInsert st.tokens index token })
+  return (some st.cursor, st.appendToken token)
+
+/-! ### dispatch -/
+
+/-- `Parser.parse_method(m, state)`: `self._methods[m.lastgroup](m, state)`.  `_methods` has one entry per key of
+`SPECIFICATION` (core configuration); any other rule name raises KeyError.  The argument is the nesting budget:
+handlers receive the instance with the smaller budget for their own calls of `parse_method` / `parse`. -/
+def parseMethod (cfg : MdCfg) : Nat → ParseMethod
+  | 0 => fun _ _ _ => .error .depthExceeded
+  | fuel + 1 => fun name mt st =>
+    let pm := parseMethod cfg fuel
+    match name with
+    | "blank_line" => parseBlankLine mt st
+    | "atx_heading" => parseAtxHeading cfg mt st
+    | "setex_heading" => parseSetexHeading cfg pm mt st
+    | "fenced_code" => parseFencedCode cfg mt st
+    | "indent_code" => parseIndentCode cfg mt st
+    | "thematic_break" => parseThematicBreak mt st
+    | "ref_link" => parseRefLink cfg mt st
+    | "block_quote" => parseBlockQuote cfg pm mt st
+    | "list" => parseList cfg pm mt st
+    | "block_html" => parseRawHtml cfg mt st              -- `parse_block_html`
+    | "raw_html" => parseRawHtml cfg mt st
+    | _ => .error .keyError
+
+/-- nesting budget for a source: every nested activation of a handler (child parse or break rule) owns at least
+one character of the (tab-expanded) source, and states nest at most `max_nested_level + 1` deep -/
+def nestFuel (cfg : MdCfg) (src : Str) : Nat := 4 * src.length + cfg.maxNested + 16
 
 /-- `BlockParser.parse` on an already normalised source, fresh root state: tokens (before the inline pass,
 i.e. with `text` fields) and the final `env`. -/
-def blockParse (cfg : MdCfg) (src : Str) : Except PyErr (List Json × Json) :=
-  .ok ([tok "paragraph" [("text", .str src)]], .obj [("ref_links", .obj [])])
+def blockParse (cfg : MdCfg) (src : Str) : Except PyErr (List Json × Json) := do
+  let st := BlockState.root src
+  let st ← parse cfg (parseMethod cfg (nestFuel cfg src)) st none
+  pure (st.tokens, st.env)
+
+end Blk
+
+def blockParse (cfg : MdCfg) (src : Str) : Except PyErr (List Json × Json) := Blk.blockParse cfg src
 
 end Model
 end Mistune
